@@ -4,7 +4,7 @@ usage: verify_seeded.py <agent-dir e.g. /tmp/wt/a3> <mK> <seeded-id> <property>"
 import sys,os,subprocess,shutil,json,re,glob
 agent,mk,sid,prop=sys.argv[1:5]
 src=f'{agent}/OUT/{mk}'
-W='/tmp/wt/verify'
+W=os.environ.get('VW','/tmp/wt/verify')
 env=dict(os.environ,GOFLAGS='-mod=mod',GOPROXY='off',GOSUMDB='off')
 def sh(cmd,cwd=W,timeout=600):
     p=subprocess.run(cmd,shell=True,cwd=cwd,capture_output=True,text=True,env=env,timeout=timeout)
